@@ -173,6 +173,24 @@ fn apply(level: &mut Arc<PriceLevel>, generator: &Arc<UuidGenerator>, op: &Value
             *level = Arc::new(l);
             json!({"restored": "external"})
         }
+        "tamper_restore" => {
+            // serialized package of the current level, with version and snapshot content replaced, fed to the restore path
+            let text = level.snapshot_to_json().expect("snapshot_to_json");
+            let mut v: Value = serde_json::from_str(&text).unwrap();
+            if let Some(ver) = op.get("version") {
+                v["version"] = ver.clone();
+            }
+            if let Some(s) = op.get("snapshot") {
+                v["snapshot"] = s.clone();
+            }
+            match PriceLevel::from_snapshot_json(&v.to_string()) {
+                Ok(l) => {
+                    *level = Arc::new(l);
+                    json!({"restore": "ok"})
+                }
+                Err(e) => json!({"restore": "err", "error": e.to_string()}),
+            }
+        }
         "from_data_with" => {
             let data = PriceLevelData {
                 price: op["price"].as_u64().unwrap(),
